@@ -437,7 +437,7 @@ Section PrivProofs.
   (* ---- every form ---- *)
   Definition pform_ok (f : pform) (n : Z) : Prop :=
     match f with
-    | PGet _ _ | PSet _ _ _ | PIn _ _ => True
+    | PGet _ _ | PSet _ _ _ | PIn _ _ | PTarget _ _ => True
     | PCall t x args =>
         (pn_kind (names x) = KMethod \/ (args = [] /\ nullish_callee_throws)) /\
         ~ In n (tmps t) /\ ~ In n (flat_map tmps args)
@@ -449,13 +449,14 @@ Section PrivProofs.
     pform_ok f n ->
     forall m s, observe (pev (fst (plower names F f n)) m s) = observe (nev f m s).
   Proof.
-    destruct f as [t x | t x v | x t | t x args | op t x v | op t x v]; cbn [pform_ok].
+    destruct f as [t x | t x v | x t | t x args | op t x v | op t x v | t x]; cbn [pform_ok].
     - intros _ m s. rewrite private_get_sound. reflexivity.
     - intros _ m s. rewrite private_set_sound. reflexivity.
     - intros _ m s. rewrite private_in_sound. reflexivity.
     - intros (H1 & H2 & H3). apply private_call_sound; assumption.
     - intros (H1 & H2 & H3 & H4). apply private_arith_assign_sound; assumption.
     - intros (H1 & H2). apply private_logical_assign_sound; assumption.
+    - intros _ m s. cbn [plower]. destruct (pn_kind (names x)); reflexivity.
   Qed.
 
   (* ---- instance initialisation: the constructor prologue esbuild emits
@@ -498,6 +499,34 @@ Section PrivProofs.
       apply bind_cong. intros v m1 s1.
       etransitivity; [apply bind_cong; intros; apply IH |].
       apply bind_cong_l. intros m2 s2. apply lift_cong. intro s3. apply hadd_native_field, Hi.
+  Qed.
+
+  (* ---- t.#x as an assignment target: [t.#x = d] = ..., for (t.#x of ...) ----
+     =>  __privateWrapper(t, _x [, x_set])._ : the reference is evaluated (t runs),
+     anything may happen in between (default value, other elements, the iterator),
+     then the store is PrivateSet *)
+  Notation ptg := (ptarget w th terr fobj isset).
+  Notation ntg := (ntarget w th terr names fobj).
+
+  Lemma hset_put x o v s :
+    wbind U (hsetK x o v) (fun _ => wret U tt) s = nset x o v s.
+  Proof.
+    rewrite (wbind_cong_l _ _ _ _ (hsetK_native x o v s)).
+    unfold wbind, wret. destruct (nset x o v s) as [[t1 s1] [[] | e]]; cbn; rewrite ?app_nil_r; reflexivity.
+  Qed.
+
+  Lemma ptarget_lower F t x n m s :
+    ptg (fst (plower names F (PTarget t x) n)) m s
+    = bind (ev t) (fun r => ret (fun v => wbind U (hsetK x (valof r) v) (fun _ => wret U tt))) m s.
+  Proof. cbn [plower fst]. unfold hsetK. destruct (pn_kind (names x)); reflexivity. Qed.
+
+  Theorem private_target_sound F t x n (mid : M S unit) v m s :
+    bind (ptg (fst (plower names F (PTarget t x) n))) (fun k => bind mid (fun _ => lift (k v))) m s
+    = bind (ntg (PTarget t x)) (fun k => bind mid (fun _ => lift (k v))) m s.
+  Proof.
+    rewrite (bind_cong_l _ _ _ m s (ptarget_lower F t x n)). cbn [ntarget].
+    rewrite !bind_assoc. apply bind_cong. intros r m1 s1. rewrite !bind_ret_l.
+    apply bind_cong. intros [] m2 s2. apply lift_cong. intro s3. apply hset_put.
   Qed.
 End PrivProofs.
 
